@@ -7,10 +7,27 @@ target, and every schedule the priority queue may take (ties included), for any 
 The hypotheses are (H1) the adjacency lists agree with the edge list (what the loader guarantees,
 C15) and (H2) edge costs are strictly positive — which for concrete configurations is *proved*
 from the cost model (`Config.inst_wf`, using C07's floor).
+
+Scope, said once:
+* vertex-oriented searches (`run_vertex_oriented`): every theorem holds forward and reverse;
+* edge-oriented searches (`search_algorithm::run_edge_oriented`): the *route* theorems are for the
+  forward direction only (`…_forward`).  The application never runs an edge-oriented search in
+  reverse (`SearchApp::run_edge_oriented` passes `Direction::Forward`; the harness forces
+  `reverse = false` on edge-oriented cases for that reason), and the wrapper is wrong there: it takes
+  the origin edge's head and the destination edge's tail in graph orientation whatever the direction
+  (`edge_oriented_reverse_counterexample`).  The *tree* theorems say exactly what each of the three
+  arms of the wrapper returns; the adjacent arm's two-entry map is not a rooted tree in general
+  (`edge_oriented_adjacent_uturn_tree_counterexample`,
+  `edge_oriented_adjacent_equal_heads_tree_counterexample`);
+* the routes of the two k-shortest-path algorithms are not here: `Props/C13.lean` proves for every
+  route they return that it is a contiguous loop-free origin–destination walk without repeated edge,
+  and the C01 oracle judges every k-shortest-path route of the C01 run.
 -/
 import Compass.Proofs.SearchTree
 import Compass.Proofs.Instance
 import Compass.Proofs.SearchRoute
+import Compass.Proofs.EdgeOrientedTree
+import Compass.Proofs.ConfigUniform
 
 namespace Compass
 namespace C01
@@ -113,11 +130,15 @@ theorem config_route_walk (c : Config α) (hadj : c.AdjConsistent) (source t : N
     rw [← h]; simp [hr]
 
 
-/-- Edge-oriented queries (origin and destination given as edges; forward search, as the application
-always runs them): the returned route starts with the origin edge, ends with the destination edge,
-is contiguous in graph orientation and uses no edge twice — for adjacent and non-adjacent origin /
-destination edges alike, self loops included. -/
-theorem edge_oriented_route_walk (c : Config α) (hadj : c.AdjConsistent) (hfwd : c.reverse = false)
+/-! ### Edge-oriented queries (`search_algorithm::run_edge_oriented`) -/
+
+/-- Edge-oriented queries (origin and destination given as edges), **forward direction** — the only
+direction the application runs them in (`SearchApp::run_edge_oriented` passes
+`Direction::Forward`): the returned route starts with the origin edge, ends with the destination
+edge, is contiguous in graph orientation and uses no edge twice — for adjacent and non-adjacent
+origin / destination edges alike, self loops included.  False in reverse:
+`edge_oriented_reverse_counterexample`. -/
+theorem edge_oriented_route_walk_forward (c : Config α) (hadj : c.AdjConsistent) (hfwd : c.reverse = false)
     (source tgt : Nat) (sched : List Nat) (r : AlgResult α) (hne : source ≠ tgt)
     (h : c.runEdge source (some tgt) sched = .ok r) :
     ∃ route, r.routes = [route] ∧ 2 ≤ route.length ∧
@@ -128,14 +149,121 @@ theorem edge_oriented_route_walk (c : Config α) (hadj : c.AdjConsistent) (hfwd 
       (route.map (·.edge)).Nodup :=
   SearchRoute.edge_oriented_route_walk c hadj hfwd source tgt sched r hne h
 
-/-- Destination-less edge-oriented search: every tree entry's edge joins its parent to its vertex
-(the origin edge's own entry, stored at the origin edge's head, included). -/
-theorem edge_oriented_tree_entry_joins (c : Config α) (hadj : c.AdjConsistent) (hfwd : c.reverse = false)
+/-- The hypothesis `c.reverse = false` is needed.  The wrapper takes the origin edge's head `e1.dst`
+and the destination edge's tail `e2.src` in graph orientation whatever the direction; run in reverse
+from edge 0 (0→1) to edge 2 (2→3) on `SearchRoute.Example.exConfig` it answers `[0, 4, 2, 2]`: the
+destination edge twice, and no walk in either orientation (edge 4 is 3→1, edge 2 is 2→3). -/
+theorem edge_oriented_reverse_counterexample :
+    SearchRoute.Example.routeEdgesOf
+      ({ SearchRoute.Example.exConfig with reverse := true }.runEdge 0 (some 2) [1, 3, 0, 2]) =
+        some [[0, 4, 2, 2]] := by
+  decide +kernel
+
+/-- Destination-less edge-oriented search, forward: every tree entry's edge joins its parent to its
+vertex in graph orientation (the origin edge's own entry, stored at the origin edge's head,
+included). -/
+theorem edge_oriented_tree_entry_joins_forward (c : Config α) (hadj : c.AdjConsistent) (hfwd : c.reverse = false)
     (source : Nat) (sched : List Nat) (r : AlgResult α)
     (h : c.runEdge source none sched = .ok r) :
     ∀ tree ∈ r.trees, ∀ v b, tree v = some b →
       c.inst.keyV b.edge = v ∧ c.inst.termV b.edge = b.terminal :=
   SearchRoute.runEdge_none_tree_joins c hadj hfwd source sched r h
+
+/-- Destination-less edge-oriented search, rootedness (either direction): the single returned tree
+stores the origin edge's entry under the origin edge's head `e1.dst` — that vertex is the search
+origin, recognised by *being the origin edge's head*, not by having no entry; every other entry
+records an edge listed at its parent that joins the parent to the entry's vertex (search direction),
+and following parents from it reaches `e1.dst` after `n ≥ 1` steps without visiting a vertex twice.
+(Following parents *through* the origin entry leads to the origin edge's tail, which may lie on the
+chain: see `edge_oriented_tree_origin_entry_counterexample`.) -/
+theorem edge_oriented_tree_rooted (c : Config α) (hadj : c.AdjConsistent) (source : Nat)
+    (sched : List Nat) (r : AlgResult α) (e1 : EdgeRec α) (h1 : c.edges[source]? = some e1)
+    (h : c.runEdge source none sched = .ok r) :
+    ∃ tree, r.trees = [tree] ∧
+      (∃ o, tree e1.dst = some o ∧ o.edge = source ∧ o.terminal = e1.src) ∧
+      ∀ v b, v ≠ e1.dst → tree v = some b →
+        (c.inst.keyV b.edge = v ∧ c.inst.termV b.edge = b.terminal ∧
+          b.edge ∈ c.inst.incident b.terminal) ∧
+        ∃ n, 0 < n ∧ (parent tree)^[n] v = e1.dst ∧
+          ∀ i j, i < j → j ≤ n → (parent tree)^[i] v ≠ (parent tree)^[j] v := by
+  obtain ⟨tree, h1', h2, h3⟩ :=
+    EdgeOrientedTree.runEdge_none_tree_rooted c hadj source sched r e1 h1 h
+  exact ⟨tree, h1', ⟨_, h2, rfl, rfl⟩, h3⟩
+
+/-- the origin entry points *out of* the tree: origin edge 4 (3→1) on `exConfig`, whose tail 3 is
+reachable from its head 1 — the parent pointers of the returned map form the cycle 1 → 3 → 2 → 1, so
+"follow parents until a vertex without entry" never ends; the root must be recognised as the origin
+edge's head (as `edge_oriented_tree_rooted` does). -/
+theorem edge_oriented_tree_origin_entry_counterexample :
+    SearchRoute.Example.treeEntriesOf (SearchRoute.Example.exConfig.runEdge 4 none [1, 2, 3]) [0, 1, 2, 3] =
+      some [[none, some (3, 4), some (1, 1), some (2, 2)]] := by
+  decide +kernel
+
+/-- Edge-oriented search with a destination, origin and destination edges **not adjacent** (either
+direction): the returned tree is the tree of the inner vertex-oriented search, rooted at the origin
+edge's head `e1.dst` — no entry there, every entry joins its parent to its vertex by an edge listed
+at the parent, following parents reaches `e1.dst` without visiting a vertex twice.  Neither the
+origin nor the destination edge has an entry of its own. -/
+theorem edge_oriented_nonadjacent_tree_rooted (c : Config α) (hadj : c.AdjConsistent)
+    (source tgt : Nat) (sched : List Nat) (r : AlgResult α) (e1 e2 : EdgeRec α)
+    (h1 : c.edges[source]? = some e1) (h2 : c.edges[tgt]? = some e2) (hne : source ≠ tgt)
+    (hnadj : e1.dst ≠ e2.src) (h : c.runEdge source (some tgt) sched = .ok r) :
+    ∃ tree, r.trees = [tree] ∧ tree e1.dst = none ∧
+      ∀ v b, tree v = some b →
+        (c.inst.keyV b.edge = v ∧ c.inst.termV b.edge = b.terminal ∧
+          b.edge ∈ c.inst.incident b.terminal) ∧
+        ∃ n, 0 < n ∧ (parent tree)^[n] v = e1.dst ∧
+          ∀ i j, i < j → j ≤ n → (parent tree)^[i] v ≠ (parent tree)^[j] v :=
+  EdgeOrientedTree.runEdge_nonadjacent_tree_rooted c hadj source tgt sched r e1 e2 h1 h2 hne hnadj h
+
+/-- Edge-oriented search with a destination, **adjacent** edges (`e1.dst = e2.src`: no search, the
+two edges are traversed and stored as `HashMap::from([(e2.dst, b2), (e1.dst, b1)])`), forward — what
+holds exactly: the origin edge's entry `b1` is stored under the origin edge's head, the destination
+edge's entry `b2` under the destination edge's head with the origin edge's head as its parent —
+unless the two heads coincide, in which case `b1` has overwritten `b2` and no entry carries the
+destination edge; nothing else is stored; both entries join their `terminal` to the vertex they are
+stored under.  So from `b2` one parent step reaches the origin edge's head; but the map is not a
+tree rooted at a vertex without entry when the tail of the origin edge is one of the two heads
+(`…_uturn_tree_counterexample`), and it loses the destination edge for equal heads
+(`…_equal_heads_tree_counterexample`). -/
+theorem edge_oriented_adjacent_tree_forward (c : Config α) (hfwd : c.reverse = false)
+    (source tgt : Nat) (sched : List Nat) (r : AlgResult α) (e1 e2 : EdgeRec α)
+    (h1 : c.edges[source]? = some e1) (h2 : c.edges[tgt]? = some e2) (hne : source ≠ tgt)
+    (hadj' : e1.dst = e2.src) (h : c.runEdge source (some tgt) sched = .ok r) :
+    ∃ (tree : Nat → Option (Branch α)) (b1 b2 : Branch α), r.trees = [tree] ∧ r.routes = [[b1, b2]] ∧
+      b1.edge = source ∧ b1.terminal = e1.src ∧ b2.edge = tgt ∧ b2.terminal = e1.dst ∧
+      c.inst.keyV b1.edge = e1.dst ∧ c.inst.termV b1.edge = b1.terminal ∧
+      c.inst.keyV b2.edge = e2.dst ∧ c.inst.termV b2.edge = b2.terminal ∧
+      tree e1.dst = some b1 ∧
+      (e2.dst ≠ e1.dst → tree e2.dst = some b2) ∧
+      (e2.dst = e1.dst → ∀ v b, tree v = some b → b.edge ≠ tgt) ∧
+      (∀ v, v ≠ e1.dst → v ≠ e2.dst → tree v = none) :=
+  EdgeOrientedTree.runEdge_adjacent_tree c hfwd source tgt sched r e1 e2 h1 h2 hne hadj' h
+
+/-- a u-turn pair: edge 0 (0→1) then edge 1 (1→0) -/
+def uturnConfig : Config ℚ :=
+  { SearchRoute.Example.exConfig with
+    nV := 2, edges := [⟨0, 1, 1000⟩, ⟨1, 0, 2000⟩], outAdj := [[0], [1]], inAdj := [[1], [0]],
+    gc := [0, 0] }
+
+/-- adjacent arm, u-turn pair: the returned map is `{1 ↦ (parent 0, edge 0), 0 ↦ (parent 1, edge 1)}`
+— a 2-cycle of parent pointers; no vertex is without entry, so it is not a tree rooted at "the
+vertex without entry" (the route `[0, 1]` is fine) -/
+theorem edge_oriented_adjacent_uturn_tree_counterexample :
+    SearchRoute.Example.treeEntriesOf (uturnConfig.runEdge 0 (some 1) []) [0, 1] =
+      some [[some (1, 1), some (0, 0)]] ∧
+    SearchRoute.Example.routeEdgesOf (uturnConfig.runEdge 0 (some 1) []) = some [[0, 1]] := by
+  decide +kernel
+
+/-- adjacent arm, equal heads: origin edge 0 (0→1), destination edge 3 (the self loop 1→1) on
+`exConfig`: the route is `[0, 3]`, the returned map has the single entry `1 ↦ (parent 0, edge 0)` —
+the destination edge's entry, stored first under the same key, is gone -/
+theorem edge_oriented_adjacent_equal_heads_tree_counterexample :
+    SearchRoute.Example.treeEntriesOf (SearchRoute.Example.exConfig.runEdge 0 (some 3) []) [0, 1, 2, 3] =
+      some [[none, some (0, 0), none, none]] ∧
+    SearchRoute.Example.routeEdgesOf (SearchRoute.Example.exConfig.runEdge 0 (some 3) []) =
+      some [[0, 3]] := by
+  decide +kernel
 
 /-! ### Why `SearchAlgorithm` no longer calls `a_star_algorithm::run_a_star_edge_oriented`
 
@@ -179,6 +307,43 @@ theorem retired_edge_oriented_wrapper_counterexample :
 and the theorem applies to an actual run (see `SearchTree.Example`). -/
 
 example : WF SearchTree.Example.inst := SearchTree.Example.inst_wf
+
+/-- the vertex-oriented theorems on an actual run: Dijkstra on `exC` (eight edges, two self loops, a
+cycle, a forbidden shortcut) from 0 to 3 returns `[0, 7]`, and `config_route_walk` applies -/
+example : ∃ r route, ConfigUniform.Example.exC.runVertex 0 (some 3) [0, 1, 2, 3] = .ok r ∧
+    r.routes = [route] ∧ route.map (·.edge) = [0, 7] ∧ (route.map (·.edge)).Nodup := by
+  obtain ⟨r, hr⟩ := SearchRoute.Example.ok_of_routeEdgesOf ConfigUniform.Example.exC_run
+  obtain ⟨route, h1, _, _, _, _, h6⟩ := config_route_walk ConfigUniform.Example.exC
+    ConfigUniform.Example.exC_edgeLocal.adj 0 3 [0, 1, 2, 3] r (by decide) hr
+  have hobs := ConfigUniform.Example.exC_run
+  rw [hr] at hobs
+  simp only [SearchRoute.Example.routeEdgesOf, h1, List.map_cons, List.map_nil, Option.some.injEq,
+    List.cons.injEq, and_true] at hobs
+  exact ⟨r, route, hr, h1, hobs, h6⟩
+
+/-- … and in reverse: the same network searched backwards from 3 to 0 returns `[7, 0]` (search
+order), a walk of the reversed graph -/
+example : ∃ r route, ConfigUniform.Example.exR.runVertex 3 (some 0) [3, 2, 1, 0] = .ok r ∧
+    r.routes = [route] ∧
+    (∀ i (hi : i + 1 < route.length),
+      ConfigUniform.Example.exR.inst.keyV route[i].edge =
+        ConfigUniform.Example.exR.inst.termV route[i + 1].edge) := by
+  obtain ⟨r, hr⟩ := SearchRoute.Example.ok_of_routeEdgesOf ConfigUniform.Example.exR_run
+  obtain ⟨route, h1, _, _, _, h5, _⟩ := config_route_walk ConfigUniform.Example.exR
+    ConfigUniform.Example.exR_edgeLocal.adj 3 0 [3, 2, 1, 0] r (by decide) hr
+  exact ⟨r, route, hr, h1, h5⟩
+
+/-- the edge-oriented theorems on actual runs of `exConfig`: non-adjacent (origin edge 0, destination
+edge 2: route `[0, 1, 2]`, the inner tree rooted at vertex 1) and destination-less (origin edge 4) -/
+example : ∃ r tree, SearchRoute.Example.exConfig.runEdge 0 (some 2) [1, 2] = .ok r ∧
+    r.trees = [tree] ∧ tree 1 = none := by
+  obtain ⟨r, hr⟩ := SearchRoute.Example.ok_of_routeEdgesOf
+    (show SearchRoute.Example.routeEdgesOf (SearchRoute.Example.exConfig.runEdge 0 (some 2) [1, 2])
+      = some [[0, 1, 2]] by decide +kernel)
+  obtain ⟨tree, h1, h2, _⟩ := edge_oriented_nonadjacent_tree_rooted SearchRoute.Example.exConfig
+    SearchRoute.Example.exConfig_adj 0 2 [1, 2] r ⟨0, 1, 1000⟩ ⟨2, 3, 500⟩ rfl rfl (by decide)
+    (by decide) hr
+  exact ⟨r, tree, hr, h1, h2⟩
 
 end C01
 end Compass
